@@ -145,6 +145,125 @@ def check_one(chk, model_out, evs):
     return impl, mon
 
 
+def run_overlap(evs):
+    """Like run_history but sends may overlap: ("q", h, d) issues a send WITHOUT waiting for the previous one (it queues
+    on the transmit lock and is written when its turn comes).  Returns the merged trace: the events, with every data
+    frame written inserted as ("w", hex) at the point where it was written, and the final sequence state."""
+    from vloop import VLoop, Wire
+    import zigpy_zboss.config as conf
+    import zigpy_zboss.types as t
+    from zigpy_zboss import uart as U
+    from zigpy_zboss.frames import Frame, HLPacket, LLHeader
+    from impl_link import build_frame_bytes
+    loop = VLoop()
+    asyncio.set_event_loop(loop)
+    try:
+        cfg = conf.CONFIG_SCHEMA({conf.CONF_DEVICE: {conf.CONF_DEVICE_PATH: "/dev/null"}})
+
+        class Api:
+            def frame_received(self, f):
+                pass
+
+            def connection_lost(self, e):
+                pass
+        proto = U.ZbossNcpProtocol(cfg[conf.CONF_DEVICE], Api())
+        w = Wire()
+        proto.connection_made(w)
+        trace, tasks = [], []
+        pos = [0]
+
+        def collect():
+            while pos[0] < len(w.log):
+                b = bytes(w.log[pos[0]])
+                pos[0] += 1
+                if not (len(b) == 7 and b[5] & 1):
+                    trace.append(("w", b.hex()))
+        for ev in evs:
+            if ev[0] == "q":
+                hl = HLPacket(t.HLCommonHeader(ev[1]), t.Bytes(ev[2]))
+                ll = (LLHeader().with_signature(Frame.signature).with_size(hl.length + 5)
+                      .with_type(t.TYPE_ZBOSS_NCP_API_HL).with_flags(t.LLFlags.LastFrag | t.LLFlags.FirstFrag))
+                tasks.append(loop.create_task(proto.send(Frame(ll, hl))))
+                loop.settle()
+                collect()
+                continue
+            trace.append(ev)
+            if ev[0] == "a":
+                proto.data_received(build_frame_bytes(None, b"", 1 | (ev[1] << 4)))
+                loop.settle()
+            elif ev[0] == "x":
+                loop.advance(U.ACK_TIMEOUT + 0.001)
+            elif ev[0] == "d":
+                proto.data_received(build_frame_bytes(0x00070000, b"\x09", 0xC0 | (ev[1] << 2)))
+                loop.settle()
+            collect()
+        for _ in range(len(tasks) + 1):
+            trace.append(("x",))
+            loop.advance(U.ACK_TIMEOUT + 0.001)
+            collect()
+        for tk in tasks:
+            if not tk.done():
+                tk.cancel()
+        loop.settle()
+        return trace, proto._pack_seq
+    finally:
+        asyncio.set_event_loop(None)
+        loop.close()
+
+
+def check_overlap(chk, evs):
+    """Monitor + tie for overlapping sends: every data frame carries the number that is current WHEN IT IS WRITTEN."""
+    trace, seq = run_overlap(evs)
+    pending = [(e[1], e[2]) for e in evs if e[0] == "q"]
+    m = 0
+    def so(m): return 0 if m == 0 else (m - 1) % 3 + 1
+    toks, mon, k = [], None, 0
+    ws = [e[1] for e in trace if e[0] == "w"]
+    dec = chk.model.batch(["specdec %s" % x for x in ws]) if ws else []
+    for e in trace:
+        if e[0] == "w":
+            d = dec[k]
+            if k < len(pending):
+                toks.append("s:%d:%s" % (pending[k][0], hexs(pending[k][1])))
+            if d == "NONE":
+                mon = mon or "written frame is not well-formed (header checksum for the stamped flags?): %s" % e[1]
+            elif (int(d.split(",")[1]) >> 2) & 3 != so(m):
+                mon = mon or ("data frame %d written while the current number is %d but stamped %d: %s"
+                              % (k, so(m), (int(d.split(",")[1]) >> 2) & 3, e[1]))
+            k += 1
+        elif e[0] == "a":
+            toks.append("a:%d" % e[1])
+            if e[1] == so(m):
+                m += 1
+        elif e[0] == "d":
+            toks.append("d:%d" % e[1])
+        else:
+            toks.append("x")
+    if mon is None and len(ws) != len(pending):
+        mon = "%d data frames written for %d sends" % (len(ws), len(pending))
+    if mon is None and seq != so(m):
+        mon = "final sequence state %d, expected %d" % (seq, so(m))
+    mo = chk.model.batch(["txseq 0 " + " ".join(toks)])[0]
+    impl = ";".join(ws) + " // seq=%d" % seq
+    mo_data = ";".join(x for x in mo.split(" // ")[0].split(";") if x and not (bytes.fromhex(x)[5] & 1)) + " // " + mo.split(" // ")[1]
+    return impl, mo_data, mon
+
+
+def gen_overlap(rng):
+    evs = []
+    for _ in range(rng.randrange(3, 12)):
+        r = rng.random()
+        if r < 0.45:
+            evs.append(("q", rng.randrange(1, 1 << 32), bytes(rng.randrange(256) for _ in range(rng.randrange(0, 6)))))
+        elif r < 0.85:
+            evs.append(("a", rng.randrange(4)))
+        elif r < 0.93:
+            evs.append(("x",))
+        else:
+            evs.append(("d", rng.randrange(4)))
+    return evs
+
+
 def ev_json(evs):
     return [[e[0]] + [hexs(x) if isinstance(x, bytes) else x for x in e[1:]] for e in evs]
 
@@ -187,6 +306,36 @@ def run(chk):
                         cur, changed = cand, True
                         break
             chk.violation(check_one(chk, None, cur)[1], {"history": ev_json(cur)}, key=None)
+    # overlapping sends (a send issued while another is outstanding queues and is written later): the number stamped
+    # must be the one current when the frame is WRITTEN
+    ov = [[("q", 0x00010000, b"\x01"), ("q", 0x00020000, b"\x02"), ("a", 0), ("a", 1)],
+          [("q", 0x00010000, b"\x01"), ("q", 0x00020000, b"\x02"), ("q", 0x00030000, b""), ("a", 0), ("x",), ("a", 1), ("a", 1)],
+          [("q", 1 << 16, b""), ("a", 0), ("q", 2 << 16, b""), ("q", 3 << 16, b""), ("a", 1), ("a", 2), ("q", 4 << 16, b""), ("q", 5 << 16, b""), ("a", 3), ("a", 1)]]
+    ov += [gen_overlap(rng) for _ in range(600 if thorough else 120)]
+    ov_tie = ov_mon = None
+    for evs in ov:
+        impl, mo, mon = check_overlap(chk, evs)
+        chk.note_case(("overlap", ev_json(evs)), nontrivial=sum(1 for e in evs if e[0] == "q") > 1)
+        chk.count("overlap_histories")
+        if impl != mo and ov_tie is None:
+            ov_tie = (ev_json(evs), impl, mo)
+        if mon is not None and ov_mon is None:
+            ov_mon = (ev_json(evs), mon)
+            cur = list(evs)
+            changed = True
+            while changed:
+                changed = False
+                for i in range(len(cur)):
+                    cand = cur[:i] + cur[i + 1:]
+                    if cand and check_overlap(chk, cand)[2] is not None:
+                        cur, changed = cand, True
+                        break
+            chk.violation(check_overlap(chk, cur)[2], {"history_overlapping_sends": ev_json(cur)}, key=None)
+    chk.oblige("tieB:overlapping-sends-vs-model(%d histories)" % len(ov), ov_tie is None, json.dumps(ov_tie)[:300] if ov_tie else "")
+    chk.oblige("monitor:number-current-at-write-time(overlapping sends)", ov_mon is None, json.dumps(ov_mon)[:300] if ov_mon else "")
+    if ov_tie and not ov_mon and not mon_bad:
+        from common import BuildBroken
+        chk.broken.append(BuildBroken("correspondence", "uart sequence numbering (overlapping sends) differs from the model", json.dumps(ov_tie)))
     chk.oblige("tieB:uart-send/ack/close-vs-model(%d histories)" % len(hist), tie_bad is None, json.dumps(tie_bad)[:300] if tie_bad else "")
     chk.oblige("monitor:sequence-rule+valid-crc8-on-impl-writes", mon_bad is None, json.dumps(mon_bad)[:300] if mon_bad else "")
     if tie_bad and not mon_bad:
@@ -195,8 +344,8 @@ def run(chk):
     chk.sample({"history": ev_json(hist[-1]), "impl_writes_and_seq": check_one(chk, None, hist[-1])[0][:200]})
     chk.exhaustive = False
     chk.extra["exhaustive_parts"] = ["all histories up to depth %d over the 8-letter alphabet" % (5 if thorough else 4)]
-    chk.assumptions = ["asyncio/async_timeout semantics (virtual clock); sends are issued one at a time (an outstanding send is "
-                       "let expire before the next is issued) - concurrent senders are C07's subject"]
+    chk.assumptions = ["asyncio/async_timeout semantics (virtual clock); the exhaustive histories issue sends one at a time; overlapping "
+                       "sends are covered by the separate overlapping-sends histories (write order itself is C07's subject)"]
     return chk.finish()
 
 
